@@ -50,7 +50,7 @@ func NormFlags(f map[string]any) map[string]any {
 	out := map[string]any{
 		"replace": false, "atomic": false, "cleanupOnFail": false, "keepHistory": false, "noHooks": false,
 		"maxHistory": 0, "version": 0, "dryRun": false, "takeOwnership": false, "clientOnly": false,
-		"createNamespace": false, "skipCRDs": false, "force": false, "install": false,
+		"createNamespace": false, "skipCRDs": false, "force": false, "install": false, "includeCRDs": false,
 	}
 	for k, v := range f {
 		out[k] = v
